@@ -289,3 +289,25 @@ def must_pass_from_entry(body, from_blocks, to_blocks, through_nodes=(), through
             if w is not None:
                 return w
     return None
+
+
+def feasible_from(body, starts, prog=None, init=None):
+    """Blocks reachable from `starts` on the product with the finite store (flags, emptiness, variant tags)."""
+    store = Store(body, prog)
+    seen = {}
+    dq = deque()
+    for s in starts:
+        k = (s, tuple(sorted((init or {}).items())))
+        if k not in seen:
+            seen[k] = True
+            dq.append((s, dict(init or {})))
+    while dq:
+        b, st = dq.popleft()
+        out = store.transfer_block(b, st)
+        for nx in store.feasible_succs(b, out):
+            k = (nx, tuple(sorted(out.items())))
+            if k in seen:
+                continue
+            seen[k] = True
+            dq.append((nx, out))
+    return {b for (b, _) in seen}
